@@ -1513,8 +1513,10 @@ class TaskPool:
                 c_task = self.spawn_task(c_name, c_point, itask.flow_nums)
 
             tasks: List[TaskProxy]
-            if c_task is not None:
+            if c_task is not None or is_abs:
                 # Have child task, update its prerequisites.
+                # (With an absolute trigger the instances already in the pool
+                # are updated even if the listed child could not be spawned.)
                 if is_abs:
                     # NOTE: Absolute triggers can have an infinite number of
                     # graph children, so only the first match is listed. We
@@ -1526,7 +1528,7 @@ class TaskPool:
                         only_match_pool=True,
                     )
                     tasks = self.get_itasks(matched)
-                    if c_task not in tasks:
+                    if c_task is not None and c_task not in tasks:
                         tasks.append(c_task)
                 else:
                     tasks = [c_task]
@@ -1537,7 +1539,7 @@ class TaskPool:
                         mode=itask.run_mode
                     )
                     self.data_store_mgr.delta_task_prerequisite(t)
-                    if not in_pool:
+                    if not in_pool and t is c_task:
                         self.add_to_pool(t)
 
                     # Event-driven suicide.
